@@ -322,6 +322,8 @@ def gen_linear(table, cases):
                 cases.append(Case(f"{cname}/{m}/{name}/escape", "reject", P, route=name, producer=m, context=cname))
                 cases.append(Case(f"{cname}/{m}/{name}/control", "accept", Q, route=name, producer=m, context=cname))
             for i in range(n_keep):
+                if recv == "refMut" and cname == "bump":
+                    continue    # the value holds the exclusive borrow of the Bump itself: any other use of the Bump conflicts
                 name, Q = keeper(table, mk, i, produce)
                 cases.append(Case(f"{cname}/{m}/{name}/keeps", "accept", Q, route=name, producer=m, context=cname))
 
@@ -560,22 +562,31 @@ def build_corpus(table, thorough):
         ids.add(c.id)
     return cases
 
-def select(cases, quick, seed, budget=330):
+def select(cases, quick, seed, budget=420):
+    """quick tier: all handle / known-finding cases, a capped sample of thread and settings cases, and a stratified
+    sample (round robin over (context, route) strata, escape + control kept together) of the producer x route product"""
     if not quick: return cases
     rng = random.Random(seed)
-    keep = []
-    # always: handles, threads, known finding, conversions; stratified sample of the producer x route product
-    fixed = [c for c in cases if c.context in ("handles", "threads", "settings", "&mut Bump(trait)")]
-    rest = [c for c in cases if c not in fixed]
-    if len(fixed) > budget * 2 // 3:
-        conv = [c for c in fixed if c.context == "settings"]; other = [c for c in fixed if c.context != "settings"]
-        rng.shuffle(conv); fixed = other + conv[:max(30, budget * 2 // 3 - len(other))]
-    # pairs (escape + control) stay together: group by id without the last component
+    fixed = [c for c in cases if c.context in ("handles", "&mut Bump(trait)")]
+    def capped(ctx_name, cap, key):
+        cs = [c for c in cases if c.context == ctx_name]
+        groups = collections.defaultdict(list)
+        for c in cs: groups[key(c)].append(c)
+        for g in groups.values(): rng.shuffle(g)
+        out, ks, i = [], sorted(groups), 0
+        while len(out) < cap and any(groups.values()):
+            k = ks[i % len(ks)]; i += 1
+            if groups[k]: out.append(groups[k].pop())
+        return out
+    fixed += capped("threads", 40, lambda c: c.route)
+    fixed += capped("settings", 44, lambda c: (c.producer, c.route))
+    rest = [c for c in cases if c.context not in ("handles", "&mut Bump(trait)", "threads", "settings")]
     groups = collections.defaultdict(list)
     for c in rest: groups[c.id.rsplit("/", 1)[0]].append(c)
     by_stratum = collections.defaultdict(list)
     for k, g in groups.items(): by_stratum[(g[0].context, g[0].route)].append(g)
     strata = sorted(by_stratum)
+    rng.shuffle(strata)
     room = max(0, budget - len(fixed))
     picked = []
     i = 0
@@ -759,7 +770,7 @@ def run_life(ctx, budget=None):
     except sigs2lean.TErr as e:
         ctx.add_ob("run:life-corpus", "build", False, f"TRANSLATE-ERROR {e}"); return False
     thorough = not ctx.quick()
-    cases = select(build_corpus(table, thorough), ctx.quick(), ctx.seed, budget or 330)
+    cases = select(build_corpus(table, thorough), ctx.quick(), ctx.seed, budget or 420)
     d, libs = build_skeleton(ctx)
     if not d: return False
     if not run_checker(ctx, cases): return False
